@@ -1,4 +1,7 @@
-use std::collections::HashMap;
+use std::collections::{
+    HashMap,
+    HashSet,
+};
 
 use astria_core::crypto::{
     Signature,
@@ -29,6 +32,9 @@ pub(super) enum QuorumError {
         commit_voting_power: u64,
         total_voting_power: u64,
     },
+
+    #[error("commit contained more than one signature of validator `{validator}`")]
+    DuplicateVote { validator: tendermint::account::Id },
 
     #[error("commit contained an empty signature field for validator `{validator}`")]
     EmptySignature { validator: tendermint::account::Id },
@@ -113,6 +119,7 @@ pub(super) fn ensure_commit_has_quorum(
         .collect::<HashMap<_, _>>();
 
     let mut commit_voting_power = 0u64;
+    let mut seen_validators = HashSet::new();
     for vote in &commit.signatures {
         // we only care about votes that are for the Commit.BlockId (ignore absent validators and
         // votes for nil)
@@ -137,6 +144,13 @@ pub(super) fn ensure_commit_has_quorum(
                 validator: *validator_address,
             });
         };
+
+        // every validator may contribute its voting power only once
+        if !seen_validators.insert(*validator_address) {
+            return Err(QuorumError::DuplicateVote {
+                validator: *validator_address,
+            });
+        }
 
         // verify address in signature matches validator pubkey
         let address_from_pubkey = tendermint::account::Id::from(validator.pub_key);
